@@ -65,6 +65,9 @@ func runC14(w *World, pi interface{}) {
 	if sut == nil {
 		return
 	}
+	// h is a frozen copy taken after the zero-time activity settled. The socket taps are read
+	// after it was taken: taps only grow and the server writes before it calls back, so every
+	// callback in h has its envelope on the tap already.
 	sig := func(what string) string { return fmt.Sprintf("%s transport=%s", what, p.Conf.Transport) }
 	established := map[int]bool{}
 	wrote := map[int]bool{}
